@@ -158,10 +158,10 @@ Qed.
 (** ** Round trip *)
 Lemma id_roundtrip n :
   0 < n -> n < 2 ^ 64 ->
-  exists s, encode n = Some s /\ decode s = Some n /\ length s = 16%nat
+  exists s, encode n = Some s /\ decode_pu s = Some n /\ length s = 16%nat
             /\ forallb is_lower_hex s = true.
 Proof.
-  intros H0 H64. exists (hex_digits 16 n). unfold encode, decode.
+  intros H0 H64. exists (hex_digits 16 n). unfold encode, decode_pu.
   destruct (n =? 0) eqn:E; [lia|].
   rewrite hex_digits_length. cbn [Nat.eqb negb].
   rewrite parse_hex_digits by lia.
@@ -202,11 +202,11 @@ Proof.
 Qed.
 
 Lemma decode_sound s n :
-  decode s = Some n ->
+  decode_pu s = Some n ->
   n <> 0 /\ n < 2 ^ 64 /\ length s = 16%nat /\ forallb is_hex s = true
   /\ encode n = Some (map to_lower_hex s).
 Proof.
-  unfold decode. intro H.
+  unfold decode_pu. intro H.
   destruct (Nat.eqb (length s) 16) eqn:El; [|discriminate]. cbn [negb] in H.
   apply Nat.eqb_eq in El.
   destruct (parse_hex 0 s) as [v|] eqn:Ev; [|discriminate].
@@ -232,10 +232,10 @@ Qed.
 
 Lemma decode_complete s n :
   n < 2 ^ 64 -> length s = 16%nat -> forallb is_hex s = true ->
-  encode n = Some (map to_lower_hex s) -> decode s = Some n.
+  encode n = Some (map to_lower_hex s) -> decode_pu s = Some n.
 Proof.
   intros H64 Hl Hx He. apply encode_Some in He as [E0 Hd].
-  unfold decode. rewrite Hl. cbn [Nat.eqb negb].
+  unfold decode_pu. rewrite Hl. cbn [Nat.eqb negb].
   rewrite <- (parse_hex_lower s 0 Hx), <- Hd, parse_hex_digits by lia.
   change (16 ^ N.of_nat 16) with (2 ^ 64). rewrite N.mod_small by lia.
   rewrite E0. reflexivity.
@@ -243,7 +243,7 @@ Qed.
 
 (** Exact characterisation of the accepted strings. *)
 Lemma decode_iff s n :
-  decode s = Some n <->
+  decode_pu s = Some n <->
   (n < 2 ^ 64 /\ length s = 16%nat /\ forallb is_hex s = true
    /\ encode n = Some (map to_lower_hex s)).
 Proof.
@@ -269,7 +269,7 @@ Qed.
 (** On strings without upper-case letters, Decode accepts exactly the encodings. *)
 Lemma decode_lowercase_exact s n :
   forallb (fun c => negb ((65 <=? c) && (c <=? 70))) s = true ->
-  (decode s = Some n <-> (n < 2 ^ 64 /\ encode n = Some s)).
+  (decode_pu s = Some n <-> (n < 2 ^ 64 /\ encode n = Some s)).
 Proof.
   intro Hnu.
   assert (Hfix : map to_lower_hex s = s).
@@ -284,27 +284,27 @@ Proof.
     apply lower_is_hex, hex_digits_lower.
 Qed.
 
-Lemma decode_rejects_length s : length s <> 16%nat -> decode s = None.
+Lemma decode_rejects_length s : length s <> 16%nat -> decode_pu s = None.
 Proof.
-  intro H. unfold decode. destruct (Nat.eqb (length s) 16) eqn:E; [|reflexivity].
+  intro H. unfold decode_pu. destruct (Nat.eqb (length s) 16) eqn:E; [|reflexivity].
   apply Nat.eqb_eq in E. contradiction.
 Qed.
 
-Lemma decode_rejects_nonhex s c : In c s -> is_hex c = false -> decode s = None.
+Lemma decode_rejects_nonhex s c : In c s -> is_hex c = false -> decode_pu s = None.
 Proof.
-  intros Hin Hc. destruct (decode s) as [n|] eqn:E; [|reflexivity].
+  intros Hin Hc. destruct (decode_pu s) as [n|] eqn:E; [|reflexivity].
   apply decode_sound in E. destruct E as [_ [_ [_ [Hx _]]]].
   rewrite forallb_forall in Hx. rewrite (Hx c Hin) in Hc. discriminate.
 Qed.
 
-Lemma decode_rejects_zero : decode (repeat 48 16) = None.
+Lemma decode_rejects_zero : decode_pu (repeat 48 16) = None.
 Proof. reflexivity. Qed.
 
 (** The full statement "every string that is not the encoding of a valid ID is
     rejected" is false for the mirror: "000000000000000A" decodes to 10, whose
     encoding is "000000000000000a". *)
 Lemma decode_uppercase_witness :
-  exists s n, decode s = Some n /\ encode n <> Some s.
+  exists s n, decode_pu s = Some n /\ encode n <> Some s.
 Proof.
   exists [48;48;48;48;48;48;48;48;48;48;48;48;48;48;48;65], 10.
   split; [reflexivity|]. vm_compute. intro H. discriminate.
@@ -372,17 +372,17 @@ Proof.
     + intro H. destruct (spec_value 0 s) as [v|] eqn:Ev; [|discriminate].
       destruct (v =? 0) eqn:E0; [discriminate|]. inversion H; subst v; clear H.
       apply (spec_value16 s n El) in Ev as [Hlow Hp].
-      assert (Hdec : decode s = Some n).
-      { unfold decode. rewrite El. cbn [Nat.eqb negb]. rewrite Hp, E0. reflexivity. }
+      assert (Hdec : decode_pu s = Some n).
+      { unfold decode_pu. rewrite El. cbn [Nat.eqb negb]. rewrite Hp, E0. reflexivity. }
       apply decode_sound in Hdec as [_ [H64 [_ [_ He]]]].
       rewrite map_lower_fix in He by exact Hlow. auto.
     + intros [H64 He].
       assert (Hlow : forallb is_lower_hex s = true).
       { apply encode_Some in He as [_ He]. rewrite <- He. apply hex_digits_lower. }
-      assert (Hdec : decode s = Some n).
+      assert (Hdec : decode_pu s = Some n).
       { apply decode_complete; auto using lower_is_hex.
         rewrite map_lower_fix by exact Hlow. exact He. }
-      unfold decode in Hdec. rewrite El in Hdec. cbn [Nat.eqb negb] in Hdec.
+      unfold decode_pu in Hdec. rewrite El in Hdec. cbn [Nat.eqb negb] in Hdec.
       destruct (parse_hex 0 s) as [v|] eqn:Ep; [|discriminate].
       destruct (v =? 0) eqn:E0; [discriminate|]. inversion Hdec; subst v.
       assert (Ev : spec_value 0 s = Some n) by (apply (spec_value16 s n El); auto).
@@ -391,3 +391,42 @@ Proof.
     apply encode_Some in He as [_ Hs].
     rewrite <- Hs, hex_digits_length in El. contradiction.
 Qed.
+
+(** ** The repaired Decode (upper-case guard before ParseUint) *)
+Lemma no_upper_iff s :
+  existsb is_upper_hex s = false <->
+  forallb (fun c => negb ((65 <=? c) && (c <=? 70))) s = true.
+Proof.
+  induction s as [|c l IH]; cbn; [tauto|]. unfold is_upper_hex at 1.
+  rewrite orb_false_iff, andb_true_iff, negb_true_iff, IH. tauto.
+Qed.
+
+Lemma lower_hex_no_upper s : forallb is_lower_hex s = true -> existsb is_upper_hex s = false.
+Proof.
+  intro H. apply no_upper_iff. eapply forallb_forall. intros c Hc.
+  rewrite forallb_forall in H. specialize (H c Hc). unfold is_lower_hex in H. lia.
+Qed.
+
+(** Decode accepts exactly the encodings of valid IDs. *)
+Lemma decode_exact s n : decode s = Some n <-> (n < 2 ^ 64 /\ encode n = Some s).
+Proof.
+  unfold decode. destruct (existsb is_upper_hex s) eqn:E.
+  - split; [discriminate|]. intros [_ He]. apply encode_Some in He as [_ He].
+    rewrite <- He, lower_hex_no_upper in E by apply hex_digits_lower. discriminate.
+  - apply decode_lowercase_exact, no_upper_iff, E.
+Qed.
+
+Lemma id_roundtrip_fixed n :
+  0 < n -> n < 2 ^ 64 ->
+  exists s, encode n = Some s /\ decode s = Some n /\ length s = 16%nat
+            /\ forallb is_lower_hex s = true.
+Proof.
+  intros H0 H64. destruct (id_roundtrip n H0 H64) as [s [He [_ [Hl Hx]]]].
+  exists s. repeat split; auto. apply decode_exact. auto.
+Qed.
+
+Lemma decode_sub s n : decode s = Some n -> decode_pu s = Some n.
+Proof. unfold decode. destruct (existsb is_upper_hex s); [discriminate|auto]. Qed.
+
+Lemma decode_none_of_pu s : decode_pu s = None -> decode s = None.
+Proof. unfold decode. intros ->. destruct (existsb is_upper_hex s); reflexivity. Qed.
